@@ -155,7 +155,9 @@ Inductive hrule :=
 | HFan                                       (* fanspeedpb: validateUpdate, Set without mask, DeriveValues *)
 | HKeyed (key : string) (empty_invalid : bool)    (* hailpb / vendingpb stock: Collection.Update(request.<R>.<key>, request.<R>, mask) *)
 | HEmergency                                 (* emergencypb: masked write, then the server clock into level_change_time *)
-| HPublication.                              (* publicationpb: id, version precondition, masked write, computed properties *)
+| HPublication                               (* publicationpb: id, version precondition, masked write, computed properties *)
+| HElectric                                  (* electricpb active mode: the mode with the request's id out of the device's modes *)
+| HLight.                              (* publicationpb: id, version precondition, masked write, computed properties *)
 
 Definition p1 (f : string) : path := [f].
 
@@ -172,7 +174,9 @@ Definition hand_table : list (string * hrule) := [
   ("hailpb.ModelServer/HailApi.Hail", HKeyed "id" true);
   ("vendingpb.ModelServer/VendingApi.Stock", HKeyed "consumable" false);
   ("emergencypb.MemoryDevice/EmergencyApi.Emergency", HEmergency);
-  ("publicationpb.ModelServer/PublicationApi.Publication", HPublication)
+  ("publicationpb.ModelServer/PublicationApi.Publication", HPublication);
+  ("electricpb.ModelServer/ElectricApi.ActiveMode", HElectric);
+  ("lightpb.ModelServer/LightApi.Brightness", HLight)
 ].
 
 Definition tint (f : string) (v : option value) : Z :=
@@ -245,11 +249,10 @@ Definition keyed_write (ty key : string) (um : mask) (b res : value) : option (v
   end.
 
 (* a field the server fills from ITS clock (or a hash of the stored bytes): taken from the observed response
-   -- the one place where a hand rule looks at the observation; absent there = left as computed, which then
-   does not match *)
+   -- the one place where a hand rule looks at the observation; absent there = a marker no response equals *)
 Definition minted (f : string) (obs : value + Z) (v : value) : value :=
   match obs with
-  | inl w => match vget f w with Some t => vset f t v | None => vclear f v end
+  | inl w => match vget f w with Some t => vset f t v | None => vset f (VS (SStr "<not minted>")) v end
   | inr _ => v
   end.
 
@@ -267,6 +270,35 @@ Definition publication_after (obs : value + Z) (v : value) : value :=
             | None => v
             end in
   minted "version" obs (minted "publish_time" obs v1).
+
+(* electricpb.ModelServer.UpdateActiveMode: only the id of the written message counts; the mode stored
+   under it in the device's mode collection is Set WHOLE (no mask: it replaces the active mode), and the
+   start time is the server clock when the id changes.  The device's modes are data: the two the harness
+   adds to every electric device (harness/c14/c14.go hints, AddMode m1 / m2 -- keep in step). *)
+Definition electric_mode (id : string) : value :=
+  VM [("id", VS (SStr id)); ("title", VS (SStr ("mode " ++ id)));
+      ("segments", VL [VM [("magnitude", VS (SF32 1065353216))]])].
+Definition electric_modes : list (string * value) := [("m1", electric_mode "m1"); ("m2", electric_mode "m2")].
+
+(* lightpb.Model.UpdateBrightness: setLevelFromPreset looks the written preset's name up in the model's
+   preset table (constructor options WithPreset); a hit overwrites level_percent and preset of the written
+   message and adds "level_percent" to a non-nil update mask (WithMoreUpdatePaths); a miss writes the
+   message as it is.  The table is data: the harness constructs every light model with the first n of
+   (dim 20 %, bright 100 %) and tells n in the pseudo-field "@presets" next to the request (ctoropts.go). *)
+Definition light_presets : list (string * (Z * string)) :=
+  [("dim", (1101004800%Z, "Dim")); ("bright", (1120403456%Z, "Bright"))].
+Definition light_prepare (n : nat) (um : mask) (res : value) : value * mask :=
+  match vget "preset" res with
+  | Some pv =>
+      match alookup (vstr "name" pv) (firstn n light_presets) with
+      | Some (lvl, title) =>
+          (vset "preset" (VM [("name", VS (SStr (vstr "name" pv))); ("title", VS (SStr title))])
+             (vset "level_percent" (VS (SF32 lvl)) res),
+           option_map (fun ps => (ps ++ [p1 "level_percent"])%list) um)
+      | None => (res, um)
+      end
+  | None => (res, um)
+  end.
 
 Definition hand_rule (ty : string) (h : hrule) (base : option value) (q : ureq) (obs : value + Z) : option (value + Z) :=
   match u_res q with
@@ -325,6 +357,25 @@ Definition hand_rule (ty : string) (h : hrule) (base : option value) (q : ureq) 
               | r => r
               end
           end
+      | HElectric =>
+          let id := vstr "id" res in
+          if String.eqb id "" then Some (inr 3%Z) else
+          match alookup id electric_modes, base with
+          | None, _ => Some (inr 5%Z)
+          | Some mode, Some b =>
+              match plain_write ty None None base mode with
+              | Some (inl v) => Some (inl (if String.eqb id (vstr "id" b) then v else minted "start_time" obs v))
+              | r => r
+              end
+          | Some _, None => None
+          end
+      | HLight =>
+          match vget "@presets" (u_req q) with
+          | Some (VS (SInt n)) =>
+              let '(res1, um1) := light_prepare (Z.to_nat n) (u_um q) res in
+              plain_write ty None um1 base res1
+          | _ => None
+          end
       end
   end.
 
@@ -345,6 +396,15 @@ Definition snap (v : value) (observed : value + Z) : value :=
   | inl w => if value_equiv v w then w else v
   | inr _ => v
   end.
+
+(* the part of the rule that is written out: what the hand rule of [server] answers to the n-th Update
+   of the history on the stored value [base]; None = no hand rule / request not covered *)
+Definition hand_part (server ty : string) (reqs : list ureq) (rs : list (value + Z)) : option value -> nat -> option (value + Z) :=
+  fun base n =>
+    match alookup server hand_table, nth_error reqs n with
+    | Some h, Some q => hand_rule ty h base q (oracle_rule rs base n)
+    | _, _ => None
+    end.
 
 Definition hybrid_rule (server ty : string) (reqs : list ureq) (rs : list (value + Z)) : option value -> nat -> value + Z :=
   fun base n =>
@@ -430,6 +490,38 @@ Definition ok_core (server : string) (init : value) (evs : list (tev value rmask
   end.
 
 Definition C14_ok (c : c14case) : bool := ok_core (c_server c) (c_init c) (c_evs c) (c_streams c) (c_eqt c).
+
+(* ---- the business rule evaluated DIRECTLY on the observation (no model run): the register is read off
+   the trace as in [gets_ok] (initial full Get, then the last successful Update response); every Update
+   under a registered name that the hand rule covers must be answered as the rule says on that register:
+   the rule's status, or the rule's value up to the order of fields.  A response that is coherent with
+   every later Get and stream but is not what the handler's rule computes fails here. ---- *)
+Definition conforms_to (expected : option (value + Z)) (resp : value + Z) : bool :=
+  match expected, resp with
+  | None, _ => true
+  | Some (inl v), inl w => value_equiv v w || value_eqb v w
+  | Some (inr c), inr c' => Z.eqb c c'
+  | _, _ => false
+  end.
+
+Fixpoint rules_walk (hp : option value -> nat -> option (value + Z)) (cur : option value) (n : nat)
+         (evs : list (tev value rmask)) : bool :=
+  match evs with
+  | [] => true
+  | TUpdate name resp :: r =>
+      if t_routed dev_names name then
+        conforms_to (hp cur n) resp &&
+        rules_walk hp (match resp with inl v => Some v | inr _ => cur end) (S n) r
+      else rules_walk hp cur (S n) r
+  | _ :: r => rules_walk hp cur n r
+  end.
+
+Definition rules_core (server : string) (init : value) (evs : list (tev value rmask)) (reqs : list ureq) : bool :=
+  match info_of server with
+  | None => false
+  | Some info => rules_walk (hand_part server (sv_type info) reqs (update_resps evs)) (Some init) 0 evs
+  end.
+Definition C14_rules_ok (c : c14case) : bool := rules_core (c_server c) (c_init c) (c_evs c) (c_reqs c).
 
 Definition mask_ok (k : option rmask) : bool :=
   match k with None => true | Some ps => segs_ok ps && forallb (fun p => match p with [] => false | _ => true end) ps end.
@@ -531,4 +623,4 @@ Definition judge (c : c14case) : Z :=
     if (if C14_guard c then C14_ok c else true) then 0
     else if has_multi (parts_of c) && relaxed_ok c then 103
     else 3
-  else verdict (agrees c) (if C14_guard c then C14_ok c else true) None.
+  else verdict (agrees c) ((if C14_guard c then C14_ok c else true) && C14_rules_ok c) None.
